@@ -25,7 +25,7 @@ RULE = (
 ASSUMPTIONS = [
     "bright-field disc contained in the detector (radius <= ROI/3.2); scan positions keep 2e-3 px clear of .5 rounding ties; fov/sampling clear of integers (floor)",
     "constant descan judged only on scenes whose mean centre of mass is an integer to 2e-6 px (measured by the harness on its own data); otherwise the library resamples the data and zero loss is not implied",
-    "thresholds: loss(truth) <= r * loss(perturbed) with r = 1e-6 (l2) / 1e-3 (l1: float32 rounding of 1e4 pixels of ~1e4 counts); gradient ratio 1e-3",
+    "thresholds: loss(truth) <= r * loss(perturbed) with r = 1e-6 (l2) / 1e-3 (l1: float32 rounding of 1e4 pixels of ~1e4 counts); gradient ratio 3e-3 (no_shift) / 1e-2 (constant)",
     "absorbing objects and plane/parabola descan fits are outside the claim (property text)",
 ]
 BUDGET = {"quick": {"soft_s": 150, "workers": 14}, "thorough": {"soft_s": 1200, "workers": 14}}
@@ -243,7 +243,7 @@ def run_case(spec, idx, ctx):
             _L, _p, _go, gp_pp = scenes.chain_loss(pt_pp, lt, with_grad=True)
             ro = float(torch.linalg.vector_norm(go) / torch.linalg.vector_norm(go_po).clamp_min(1e-300))
             rp = float(torch.linalg.vector_norm(gp) / torch.linalg.vector_norm(gp_pp).clamp_min(1e-300))
-            gt = 1e-3 * (10.0 if kind.startswith("constant") else 1.0)
+            gt = 3e-3 if not kind.startswith("constant") else 1e-2  # measured floors over 1600 scenes: 1.8e-4 (no_shift), 7.8e-4 (constant); mutants >= 5e-2
             ctx.close(max(ro, rp), gt, "truth_not_stationary", track="%s:%s" % (lt, ("constant" if kind.startswith("constant") else "no_shift") + (":clipped(known finding)" if clip == "on" else "")), detail=lambda: "%s |grad_obj(truth)|/|grad_obj(pert)|=%.2e |grad_probe(truth)|/|grad_probe(pert)|=%.2e scene=%s" % (lt, ro, rp, sc.describe()), **dict(common, loss=lt))
     frac = np.abs(sc.positions_px - np.rint(sc.positions_px))
     nfrac = int((frac.max(axis=1) > 1e-3).sum())
